@@ -8,6 +8,62 @@ VERIF = os.path.dirname(os.path.dirname(os.path.abspath(__file__)))
 
 # property -> (technique, level text, level note, design ref)
 CLAIMED = {
+    'C07': (
+        'Hypothesis-generated files x every truncation point x a catalogue '
+        'of length perturbations per content header; oracle = '
+        'prefix-of-intact-records and exact framing via an independent '
+        'reading of the framed bytes',
+        'For each generated well-formed file (writer programs and foreign '
+        'files, content full of fake sections) the reader is run on EVERY '
+        'byte prefix and on 19 perturbed length values per content header; '
+        'records must be a prefix of the intact ones followed by a normal '
+        'end or DiffXParseError, and a section yielded under a perturbed '
+        'length must be exactly the specification\'s reading of that many '
+        'bytes. One open known finding (short read accepted, D3) is '
+        'classified tightly and reported as KNOWN-FINDING.',
+        'Trusted: dxv/spec.py ref_parse/ref_content. Truncation = byte '
+        'prefix; torn writes are outside the property.',
+        'DESIGN.md section 5 C07, section 6 D3'),
+    'C08': (
+        'Hypothesis structured corruption fuzzing + random bytes, atheris '
+        'coverage-guided fuzzing in the thorough tier; oracle = exception '
+        'type contract, line bound, message/attribute agreement, read-budget '
+        'termination, stream.closed',
+        'Well-formed files are corrupted 1-3 times (hostile option values '
+        'and keys, byte/line edits, newline-style changes, truncation) and '
+        'fed to the streaming reader, DiffX.from_bytes and '
+        'DiffX.from_stream; every outcome is checked against the error '
+        'contract and offending exceptions are bucketed by (API, type, '
+        'innermost library frame) so one run enumerates root causes. '
+        'Thorough adds 16 atheris shards with the same oracle in-target.',
+        'Trusted: the budgeted stream as a stand-in for termination; line '
+        'bound counts 0x0A and 0x25 bytes.',
+        'DESIGN.md section 5 C08'),
+    'C12': (
+        'Hypothesis metamorphic testing: add unknown options to headers of '
+        'generated well-formed files',
+        'Foreign well-formed files x 1-4 headers x 1-3 unknown key=value '
+        'pairs x insertion positions; reader(extended) must equal '
+        'reader(original) except that the affected records\' options gain '
+        'exactly those pairs (integers converted), and both must equal the '
+        'specification\'s reading.',
+        'Trusted: dxv/foreign.py render. Unknown = not one of the eight '
+        'option names the specification defines.',
+        'DESIGN.md section 5 C12'),
+    'C17': (
+        'metamorphic sweep: every header padding 1..200 and every '
+        'read-ahead block size 1..192 (+255, 256, 4096, 10^6) per generated '
+        'file; oracle = records equal the default-run / reference records',
+        'Per file (foreign generator, writer programs with long lines, the '
+        '7 spec examples) every header is lengthened byte by byte through '
+        'two full read-ahead blocks, the block size is rebound from the '
+        'harness to every value up to 2x the default and beyond the file '
+        'size, plus a padding x block diagonal; thousands of reader runs '
+        'per file must all give the same records.',
+        'Trusted: dxv/spec.py ref_parse. Block size is varied through the '
+        'private default of DiffXReader._read_until; if absent that '
+        'dimension is reported unavailable.',
+        'DESIGN.md section 5 C17'),
     'C01': (
         'Hypothesis-generated writer programs, write->read round trip; '
         'oracle = records constructed from the calls (model of the calls)',
